@@ -614,7 +614,10 @@ async fn secure_pairings(out: &mut Out, rng: &mut Rng, thorough: bool) {
                         let _ = t.write_all(b"HTTP/1.1 200 OK\r\n\r\n").await;
                         let _ = t.flush().await;
                         let mut got = vec![];
-                        let _ = t.read_to_end(&mut got).await;
+                        // the proxy's end of stream must be a clean TLS close: otherwise nothing is echoed (and the case fails)
+                        if t.read_to_end(&mut got).await.is_err() {
+                            return;
+                        }
                         let _ = t.write_all(&got).await;
                         let _ = t.shutdown().await;
                     }
@@ -743,7 +746,8 @@ async fn secure_pairings(out: &mut Out, rng: &mut Rng, thorough: bool) {
                                 s.flush().await.ok()?;
                                 s.shutdown().await.ok()?;
                                 let mut echo = vec![];
-                                let eof = matches!(tokio::time::timeout(std::time::Duration::from_secs(15), s.read_to_end(&mut echo)).await, Ok(Ok(_)) | Ok(Err(_)));
+                                // a clean end of stream: the proxy's TLS side must close with close_notify (a bare FIN is a truncation to a TLS peer)
+                                let eof = matches!(tokio::time::timeout(std::time::Duration::from_secs(15), s.read_to_end(&mut echo)).await, Ok(Ok(_)));
                                 Some((reply, echo, eof))
                             }
                         }
@@ -930,4 +934,7 @@ pub async fn run_c04(out: &mut Out) {
     let w = world(&[], 10);
     scripted_cases(out, &mut rng, &w, if thorough { 6000 } else { 900 }, true).await;
     e2e(out, &mut rng, "c04", thorough).await;
+    // half-close over TLS and QUIC legs: the client half-closes, the far end answers after seeing EOF, the answer and a
+    // clean end of stream must reach the client
+    secure_pairings(out, &mut rng, thorough).await;
 }
